@@ -49,9 +49,32 @@ pub(crate) fn restore_disclosures(
     disclosure_paths: &mut Vec<DisclosurePath>,
     algorithm: HashAlgorithm,
 ) -> Result<(), Error> {
+    let mut pending: Vec<Disclosure> = Vec::with_capacity(disclosures.len());
     for disclosure in disclosures {
         let decoded_disclosure = Disclosure::from_base64(disclosure, algorithm)?;
-        restore_disclosure(claims, &decoded_disclosure, String::new(), disclosure_paths)?;
+        if pending
+            .iter()
+            .any(|d| d.digest() == decoded_disclosure.digest())
+        {
+            return Err(Error::SDJWTRejected(
+                "disclosure presented more than once".to_string(),
+            ));
+        }
+        pending.push(decoded_disclosure);
+    }
+
+    // a nested disclosure can only be placed after the claim that encloses it
+    while !pending.is_empty() {
+        let mut unplaced = Vec::new();
+        for disclosure in &pending {
+            if !restore_disclosure(claims, disclosure, String::new(), disclosure_paths)? {
+                unplaced.push(disclosure.clone());
+            }
+        }
+        if unplaced.len() == pending.len() {
+            break;
+        }
+        pending = unplaced;
     }
 
     Ok(())
